@@ -409,3 +409,89 @@ pub fn bigint_form<S: Src>(s: &mut S) {
     else { assert!(bytes[0] == if neg { 0xc3 } else { 0xc2 }, "BigInt {} outside the 64-bit range is not a tagged byte string: {:02x?}", x, bytes); }
     assert!(pd == bytes, "a Plutus-data integer is written differently from the BigInt it wraps");
 }
+
+/// C14: Value comparison agrees with the component-wise order. Draws: shape index of each side (as in obl/c14.py SHAPES),
+/// the two coins, then 4 quantities per side for (p0,a0) (p0,a1) (p1,a0) (p1,a1).
+pub fn value_compare<S: Src>(s: &mut S) {
+    let (si, sj) = (s.u8() as usize, s.u8() as usize);
+    let (cl, cr) = (s.u64(), s.u64());
+    let mut q = [[0u64; 4]; 2];
+    for side in 0..2 { for k in 0..4 { q[side][k] = s.u64(); } }
+    // shapes: None, empty, {p0:{}}, {p0:{a0}}, {p0:{a0,a1}}, {p0:{a0},p1:{a0}}, {p1:{a1}}
+    let shapes: [Option<&[(usize, &[usize])]>; 7] = [None, Some(&[]), Some(&[(0, &[])]), Some(&[(0, &[0])]), Some(&[(0, &[0, 1])]), Some(&[(0, &[0]), (1, &[0])]), Some(&[(1, &[1])])];
+    let pol = |p: usize| ScriptHash::from([10 + p as u8; 28]);
+    let name = |a: usize| AssetName::new(vec![a as u8 + 1; 1 + a]).unwrap();
+    let mut comps: Vec<(u64, u64)> = vec![(cl, cr)];
+    let mut eff = [[0u64; 4]; 2];
+    let build = |side: usize, shape: Option<&[(usize, &[usize])]>, coin: u64, eff: &mut [[u64; 4]; 2]| -> Value {
+        match shape {
+            None => Value::new(&BigNum::from(coin)),
+            Some(pols) => {
+                let mut ma = MultiAsset::new();
+                for (p, names) in pols.iter() {
+                    let mut assets = Assets::new();
+                    for a in names.iter() { assets.insert(&name(*a), &BigNum::from(q[side][p * 2 + a])); eff[side][p * 2 + a] = q[side][p * 2 + a]; }
+                    ma.insert(&pol(*p), &assets);
+                }
+                Value::new_with_assets(&BigNum::from(coin), &ma)
+            }
+        }
+    };
+    let l = build(0, shapes[si % 7], cl, &mut eff);
+    let r = build(1, shapes[sj % 7], cr, &mut eff);
+    for k in 0..4 { comps.push((eff[0][k], eff[1][k])); }
+    let all_le = comps.iter().all(|(a, b)| a <= b);
+    let all_ge = comps.iter().all(|(a, b)| a >= b);
+    let want = if all_le && all_ge { Some(0i8) } else if all_le { Some(-1) } else if all_ge { Some(1) } else { None };
+    assert!(l.compare(&r) == want, "Value::compare returns {:?}, the component-wise order is {:?} (shapes {} / {}, components {:?})", l.compare(&r), want, si, sj, comps);
+    let pc = l.partial_cmp(&r).map(|o| o as i8);
+    assert!(pc == want, "Value::partial_cmp returns {:?}, the component-wise order is {:?}", pc, want);
+}
+
+/// C14: Value::checked_add / checked_sub / clamped_sub are component-wise exact (or fail / clamp as documented).
+/// Draws: op (0 add, 1 checked_sub, 2 clamped_sub), the two shape indices, the two coins, 4 quantities per side.
+pub fn value_arith<S: Src>(s: &mut S) {
+    let op = s.u8();
+    let (si, sj) = (s.u8() as usize, s.u8() as usize);
+    let (cl, cr) = (s.u64(), s.u64());
+    let mut q = [[0u64; 4]; 2];
+    for side in 0..2 { for k in 0..4 { q[side][k] = s.u64(); } }
+    let shapes: [Option<&[(usize, &[usize])]>; 7] = [None, Some(&[]), Some(&[(0, &[])]), Some(&[(0, &[0])]), Some(&[(0, &[0, 1])]), Some(&[(0, &[0]), (1, &[0])]), Some(&[(1, &[1])])];
+    let pol = |p: usize| ScriptHash::from([10 + p as u8; 28]);
+    let name = |a: usize| AssetName::new(vec![a as u8 + 1; 1 + a]).unwrap();
+    let mut eff = [[0u64; 4]; 2];
+    let mut build = |side: usize, shape: Option<&[(usize, &[usize])]>, coin: u64| -> Value {
+        match shape {
+            None => Value::new(&BigNum::from(coin)),
+            Some(pols) => {
+                let mut ma = MultiAsset::new();
+                for (p, names) in pols.iter() {
+                    let mut assets = Assets::new();
+                    for a in names.iter() { assets.insert(&name(*a), &BigNum::from(q[side][p * 2 + a])); eff[side][p * 2 + a] = q[side][p * 2 + a]; }
+                    ma.insert(&pol(*p), &assets);
+                }
+                Value::new_with_assets(&BigNum::from(coin), &ma)
+            }
+        }
+    };
+    let l = build(0, shapes[si % 7], cl);
+    let r = build(1, shapes[sj % 7], cr);
+    let mut comps: Vec<(u64, u64)> = vec![(cl, cr)];
+    for k in 0..4 { comps.push((eff[0][k], eff[1][k])); }
+    let component = |v: &Value, k: usize| -> u64 {
+        if k == 0 { return u64::from(v.coin()); }
+        let (p, a) = ((k - 1) / 2, (k - 1) % 2);
+        v.multiasset().and_then(|m| m.get(&pol(p))).and_then(|x| x.get(&name(a))).map(u64::from).unwrap_or(0)
+    };
+    match op {
+        0 => match l.checked_add(&r) {
+            Ok(v) => for (k, (a, b)) in comps.iter().enumerate() { assert!(a.checked_add(*b) == Some(component(&v, k)), "checked_add: component {} is {} for {} + {}", k, component(&v, k), a, b); },
+            Err(_) => assert!(comps.iter().any(|(a, b)| a.checked_add(*b).is_none()), "checked_add fails although every component has an exact sum"),
+        },
+        1 => match l.checked_sub(&r) {
+            Ok(v) => for (k, (a, b)) in comps.iter().enumerate() { assert!(a.checked_sub(*b) == Some(component(&v, k)), "checked_sub returns Ok with component {} = {} for {} - {} (silently clamped)", k, component(&v, k), a, b); },
+            Err(_) => assert!(comps.iter().any(|(a, b)| a < b), "checked_sub fails although every component has an exact difference"),
+        },
+        _ => { let v = l.clamped_sub(&r); for (k, (a, b)) in comps.iter().enumerate() { assert!(a.saturating_sub(*b) == component(&v, k), "clamped_sub: component {} is {} for {} - {}", k, component(&v, k), a, b); } }
+    }
+}
